@@ -2,6 +2,7 @@ package sim
 
 import (
 	"context"
+	"fmt"
 	"io"
 	"testing"
 	"time"
@@ -13,6 +14,19 @@ func runOnce(t *testing.T, faults []Fault, quicID *quic.QUICID) (err error, leak
 	Bubble(t, 40*time.Second, func() {
 		w := NewWorld(20*time.Millisecond, faults, nil, nil)
 		defer w.Close()
+		obs := w.Observe()
+		defer func() {
+			if obs.Undecryptable > 0 && err == nil {
+				for _, r := range w.Router.Log {
+					for _, p := range r.Pkts.([]*Packet) {
+						if p.Err != "" {
+							err = fmt.Errorf("observer: %s datagram %d: %s %s", r.Dir, r.Seq, p.Kind, p.Err)
+							return
+						}
+					}
+				}
+			}
+		}()
 		st := &quic.Transport{Conn: w.ServerConn}
 		ln, e := st.Listen(ServerTLS(false, w.ServerKeys), DefaultQUICConfig())
 		if e != nil {
